@@ -7,7 +7,7 @@ EXPLANATION = ('The real digit kernel BaseNumberParser._get_digital_value runs n
 ASSUMPTIONS = ['Decimal arithmetic at 15 significant digits is exact for numerals of at most 15 digits (model validated against real Decimal on random numerals per shape: O3.2v)',
                'shapes: plain / grouped with the culture\'s thousands mark / decimal with its decimal mark / grouped+decimal, optional leading "-", <= 15 digits, <= 6 fraction digits',
                'grouped numerals do not start with 0']
-OUTSIDE = ['the regex layer (which literals the culture patterns extract as one entity)', 'Chinese / Japanese (CJK parser)', 'multipliers (k, M, hundred ...), fractions, powers',
+OUTSIDE = ['which of several matches the regex engine prefers inside longer text (the language layer O3.1 only shows that a full match exists)', 'Chinese / Japanese (CJK parser)', 'multipliers (k, M, hundred ...), fractions, powers',
            'sign words ("minus 5") and text restoration in BaseNumberParser.parse', 'numerals of more than 15 digits']
 N = 'recognizers_number.number.parsers:'
 CULTURES = ['en-us', 'es-es', 'es-mx', 'fr-fr', 'pt-br', 'de-de', 'it-it', 'nl-nl']
@@ -54,4 +54,19 @@ def obligations(tier):
            Ob('O3.5-percentage-parser', 'sx', 'harness.C03:h_percentage_parser', timeout=t,
               descr='BasePercentageParser: inner resolution + "%" exactly once; span/text of the whole percentage kept; the masked inner number is what is parsed',
               bounds='9 inner resolution strings x offsets 0..6 x with/without inner data', encodes=[N + 'BasePercentageParser.parse'])]
+    L = 'harness.layouts:'
+    kf = {('de-de', 'decimal-long'): 'F14', ('nl-nl', 'decimal-long'): 'F14', ('de-de', 'neg-decimal'): 'F15', ('nl-nl', 'neg-decimal'): 'F15', ('es-mx', 'grouped-n'): 'F16'}
+    lays = ['plain', 'grouped-1', 'grouped-n', 'decimal-short', 'decimal-long', 'grouped-decimal', 'neg-plain', 'neg-decimal']
+    main = [{'kind': 'number', 'culture': c, 'layout': l} for c in CULTURES for l in lays if (c, l) not in kf]
+    obs.append(Ob('O3.1-language', 'fn', L + 'inclusion', slices=main, timeout=t,
+                  descr='every numeral of the culture\'s grammar (plain, grouped, decimal, grouped decimal, negative) is fully matched by one of the patterns the culture\'s number extractor compiles',
+                  bounds='unbounded over the layout language (<= 15 digits, <= 6 fraction digits, <= 4 groups); 8 cultures x 8 layouts minus the known-finding slices',
+                  engine='z3 regular-expression solver on an over-approximating translation of the real pattern sources (assertions dropped)',
+                  encodes=['recognizers_number.number.extractors:BaseNumberExtractor._generate_format_regex']))
+    obs.append(Ob('O3.1-api-members', 'fn', L + 'api_members', slices=[dict(x, n=12 if tier == 'quick' else 80) for x in main], timeout=t,
+                  descr='composition check: solver-generated numerals of each layout are recognised as one entity covering the literal with the number as value',
+                  bounds='12 (thorough 80) z3 models per (culture, layout); validation of the composition, not a universal verdict'))
+    for (c, l), fid in sorted(kf.items()):
+        obs.append(Ob('O3.1-language-%s-%s' % (c, l), 'fn', L + 'inclusion', slices=[{'kind': 'number', 'culture': c, 'layout': l}], timeout=t, finding=fid,
+                      descr='region of known finding %s' % fid))
     return obs
